@@ -40,6 +40,9 @@ pub struct Ctx {
     pub only_case: Option<String>,
     pub case_no: u64,
     pub budget_s: f64,
+    /// sampled boundary events for the offline Python re-judgement (pyref)
+    pub pytrace: Vec<Value>,
+    pub pytrace_caps: BTreeMap<String, u32>,
 }
 
 impl Ctx {
@@ -68,6 +71,8 @@ impl Ctx {
             only_case: None,
             case_no: 0,
             budget_s,
+            pytrace: Vec::new(),
+            pytrace_caps: BTreeMap::new(),
         }
     }
     /// Under Miri the budget is split into phases so that every part of a workload gets a share.
@@ -154,6 +159,21 @@ impl Ctx {
             "wall_s": self.start.elapsed().as_secs_f64(),
             "expired": self.expired(),
         })
+    }
+    /// keep at most `cap` events per bucket
+    pub fn pytrace(&mut self, bucket: &str, cap: u32, f: impl FnOnce() -> Value) {
+        let c = self.pytrace_caps.entry(bucket.to_string()).or_insert(0);
+        if *c < cap && self.pytrace.len() < 400 {
+            *c += 1;
+            self.pytrace.push(f());
+        }
+    }
+    pub fn write_pytrace(&self, path: &str) -> std::io::Result<()> {
+        let mut f = std::io::BufWriter::new(std::fs::File::create(path)?);
+        for v in &self.pytrace {
+            writeln!(f, "{}", v)?;
+        }
+        Ok(())
     }
     pub fn write_distinct(&self, path: &str) -> std::io::Result<()> {
         let mut v: Vec<u64> = self.distinct.iter().copied().collect();
